@@ -47,7 +47,7 @@ impl TracedInterpreterError {
         }
         if let Some(line) = line {
             if let InterpreterError::Syntax(SyntaxError::Tokenization(tok)) = &self.error {
-                let range = tok.string_range(line.as_ref().len());
+                let range = tok.string_range_in(line.as_ref());
                 return vec![
                     line.as_ref().to_owned(),
                     format!(
